@@ -170,3 +170,120 @@ theorem singular_iff (ts : List Tri) (hd : NoDegenerate ts) (v : Nat) :
         exact Reach.trans hback (hall u hu')
 
 end M3d.MeshDiag
+
+namespace M3d.MeshDiag
+open M3d.Surface
+
+/-! ## breadth-first families (`ptrCoord.Clusters`) -/
+
+theorem bfs_snd_sublist {α : Type} (adj : α → α → Bool) :
+    ∀ (n : Nat) (q u : List α), List.Sublist (bfs adj n q u).2 u := by
+  intro n
+  induction n with
+  | zero => intro q u; simp [bfs]
+  | succ n ih =>
+    intro q u
+    cases q with
+    | nil => simp [bfs]
+    | cons x q =>
+      simp only [bfs]
+      exact (ih _ _).trans List.filter_sublist
+
+theorem bfs_head_mem {α : Type} (adj : α → α → Bool) (n : Nat) (x : α) (q u : List α) :
+    x ∈ (bfs adj (n + 1) (x :: q) u).1 := by
+  simp [bfs]
+
+/-- The families are a partition into pieces that are connected and mutually non-adjacent. -/
+theorem families_spec {α : Type} (adj : α → α → Bool) :
+    ∀ (n : Nat) (l : List α), l.length ≤ n → l.Nodup →
+      (families adj n l).flatten.Perm l ∧
+      (∀ F ∈ families adj n l, ∃ x ∈ F, ∀ y ∈ F, Reach adj l x y) ∧
+      (families adj n l).Pairwise (fun F G => ∀ a ∈ F, ∀ b ∈ G, adj a b = false) := by
+  intro n
+  induction n with
+  | zero =>
+    intro l hl _
+    have : l = [] := List.eq_nil_of_length_eq_zero (Nat.le_zero.mp hl)
+    subst this
+    simp [families]
+  | succ n ih =>
+    intro l hl hnd
+    cases l with
+    | nil => simp [families]
+    | cons x rest =>
+      simp only [families]
+      have hperm := bfs_perm adj (rest.length + 1) [x] rest
+      have hx1 := bfs_head_mem adj rest.length x [] rest
+      have hsub := bfs_snd_sublist adj (rest.length + 1) [x] rest
+      have hxr : x ∉ rest := (List.nodup_cons.mp hnd).1
+      have hlen2 : (bfs adj (rest.length + 1) [x] rest).2.length ≤ n := by
+        have h1 := hperm.length_eq
+        have h2 : 0 < (bfs adj (rest.length + 1) [x] rest).1.length := List.length_pos_of_mem hx1
+        simp at h1 hl; omega
+      have hnd2 : (bfs adj (rest.length + 1) [x] rest).2.Nodup := (List.nodup_cons.mp hnd).2.sublist hsub
+      obtain ⟨ih1, ih2, ih3⟩ := ih _ hlen2 hnd2
+      have hspec := bfs_snd_spec adj (rest.length + 1) [x] rest (by simp; omega) (by simpa using hxr)
+      refine ⟨?_, ?_, ?_⟩
+      · rw [List.flatten_cons]
+        exact (List.Perm.append_left _ ih1).trans (by simpa using hperm)
+      · intro F hF
+        rcases List.mem_cons.mp hF with h | h
+        · subst h
+          refine ⟨x, hx1, fun y hy => ?_⟩
+          obtain ⟨a, ha, hr⟩ := bfs_fst_reach adj _ _ _ y hy
+          have : a = x := by simpa using ha
+          subst this
+          exact hr.mono fun z hz => List.mem_cons_of_mem _ hz
+        · obtain ⟨x', hx', hall⟩ := ih2 F h
+          exact ⟨x', hx', fun y hy => (hall y hy).mono fun z hz => List.mem_cons_of_mem _ (hsub.subset hz)⟩
+      · rw [List.pairwise_cons]
+        refine ⟨fun G hG a ha b hb => ?_, ih3⟩
+        have hb2 : b ∈ (bfs adj (rest.length + 1) [x] rest).2 :=
+          ih1.subset (List.mem_flatten.mpr ⟨G, hG, hb⟩)
+        obtain ⟨hbr, hno⟩ := (hspec b).mp hb2
+        obtain ⟨a', ha', hr⟩ := bfs_fst_reach adj _ _ _ a ha
+        have : a' = x := by simpa using ha'
+        subst this
+        cases hab : adj a b with
+        | false => rfl
+        | true => exact absurd ⟨a', List.mem_cons_self, .step hr hbr hab⟩ hno
+
+/-! ## `removeAllConnected` -/
+
+theorem sharesVert_symm (s t : Face) : sharesVert s t = sharesVert t s := by
+  simp only [sharesVert, hasVert]
+  rw [Bool.eq_iff_iff]
+  simp only [List.any_eq_true, List.contains_iff_mem]
+  constructor <;> rintro ⟨c, h1, h2⟩ <;> exact ⟨c, h2, h1⟩
+
+/-- `removeAllConnected` splits the remaining faces into the faces connected (through shared
+vertices) to a face at `c`, and the rest, with no vertex shared across the split. -/
+theorem removeAllConnected_spec (rem : List Face) (c : Nat) :
+    ((removeAllConnected rem c).1 ++ (removeAllConnected rem c).2).Perm rem ∧
+    (∀ y ∈ (removeAllConnected rem c).1, ∃ a ∈ facesAt c rem, Reach sharesVert rem a y) ∧
+    (∀ a ∈ (removeAllConnected rem c).1, ∀ b ∈ (removeAllConnected rem c).2, sharesVert a b = false) ∧
+    (∀ b ∈ (removeAllConnected rem c).2, hasVert c b.2 = false) := by
+  unfold removeAllConnected
+  have hperm0 : (facesAt c rem ++ rem.filter fun f => !hasVert c f.2).Perm rem :=
+    List.filter_append_perm (fun (f : Face) => hasVert c f.2) rem
+  have hlen : (facesAt c rem).length + (rem.filter fun f => !hasVert c f.2).length ≤ rem.length + 1 := by
+    have := hperm0.length_eq; simp at this; omega
+  have hdisj : ∀ a ∈ facesAt c rem, a ∉ (rem.filter fun f => !hasVert c f.2) := by
+    intro a ha hb
+    have h1 := (List.mem_filter.mp ha).2
+    have h2 := (List.mem_filter.mp hb).2
+    simp only [h1] at h2; cases h2
+  have hspec := bfs_snd_spec sharesVert _ _ _ hlen hdisj
+  have hsubU : ∀ z ∈ (rem.filter fun f => !hasVert c f.2), z ∈ rem := fun z hz => (List.mem_filter.mp hz).1
+  refine ⟨(bfs_perm _ _ _ _).trans hperm0, fun y hy => ?_, fun a ha b hb => ?_, fun b hb => ?_⟩
+  · obtain ⟨a, ha, hr⟩ := bfs_fst_reach sharesVert _ _ _ y hy
+    exact ⟨a, ha, hr.mono hsubU⟩
+  · obtain ⟨hbu, hno⟩ := (hspec b).mp hb
+    obtain ⟨a', ha', hr⟩ := bfs_fst_reach sharesVert _ _ _ a ha
+    cases hab : sharesVert a b with
+    | false => rfl
+    | true => exact absurd ⟨a', ha', .step hr hbu hab⟩ hno
+  · have := (List.mem_filter.mp ((hspec b).mp hb).1).2
+    simpa using this
+
+end M3d.MeshDiag
